@@ -245,7 +245,7 @@ structure CompileState where
   liftedStatements : List Core.Def
 
 /-- result of a state-threading computation that may hit an `expect` -/
-def Res (α : Type) : Type := Except String (α × CompileState)
+abbrev Res (α : Type) : Type := Except String (α × CompileState)
 
 -- compile.rs: CompileState::fresh_var
 def freshVar (st : CompileState) : String × CompileState :=
@@ -292,9 +292,9 @@ def isLeaf : Core.Term → Bool
   | _ => false
 
 /-- type of `compile_with_cont` of one term -/
-def CwcFn : Type := Core.Term → CompileState → Res Core.Stmt
+abbrev CwcFn : Type := Core.Term → CompileState → Res Core.Stmt
 /-- type of `compile` of one term -/
-def CompFn : Type := Core.Ty → CompileState → Res Core.Term
+abbrev CompFn : Type := Core.Ty → CompileState → Res Core.Term
 
 /-- compile.rs: the default body of `Compile::compile` -/
 def defaultCompile (cwc : CwcFn) : CompFn := fun ty st =>
